@@ -56,3 +56,14 @@ Theorem C07_process_line_from_source : forall line,
   option_map entry_pair (gen_process_line line) = Some (process_line line).
 Proof. exact process_line_from_source. Qed.
 Print Assumptions C07_process_line_from_source.
+
+(* ---------- what the ingester hands over is what the processor's entry point processes ----------
+   Gen/EntryMetrics.v is REGENERATED on every run from SshdProcessorer.ProcessSshdLogEntry: the per-line
+   configuration takes its message from sm.Message and its PID token from sm.PID UNCHANGED (any call or
+   operation on them makes the generated sketch differ), the remaining fields from the processor, and the
+   result of ProcessEntry is returned as it is.  So [process c tok line] of the model is applied to exactly
+   the (PID token, message) pair the syslog ingester produced. *)
+From AM Require Import Gen.EntryMetrics Model.EntryMetricsIR Proofs.EntryMetricsTie.
+Theorem C07_entry_from_source : forall pid msg, entry_args gen_entry (pid, msg) = Some (pid, msg).
+Proof. exact entry_from_source. Qed.
+Print Assumptions C07_entry_from_source.
